@@ -1,6 +1,7 @@
 import Glas.Model.Items
 import Glas.Gen.Parser
 import Glas.Lemmas.ItemsLocal
+import Glas.Lemmas.ItemsSeg
 /-!
 # C03 — a syntax error inside one definition does not disturb the others: locality of items
 
@@ -42,5 +43,58 @@ theorem item_prefix_det (P : Prog) (f n : Nat) (toks toks' : List Kind) (pos : N
     (hlen : o.stop + progMaxNth P + 1 ≤ toks.length ∧ o.stop + progMaxNth P + 1 ≤ toks'.length) :
     runItem P f n toks' pos = .ok o :=
   Glas.Lemmas.ItemsLocal.runItem_prefix P f n toks toks' pos o h ⟨hagree, hlen.1, hlen.2⟩
+
+/-- **C03, conditional form, for the whole module loop.**  A file `pre ++ vic ++ post`; the definition(s) `vic` are
+damaged into `vic'`, the first `progMaxNth P + 1` tokens (for the generated parser: three, `glas_lookahead`) staying
+as they were.  IF the module loop over the damaged file, started at the victim, comes to stand exactly at the victim's
+end (*containment* - the hypothesis the implementation-side oracle tests, and where the recorded defects are), THEN
+the whole damaged file is parsed into: the very same items as before in front of the victim, whatever the victim has
+become, and behind it the items `post` parses into on its own - the same as in the undamaged file, moved by the
+change of length.  (Any program of the DSL; item by item, see `Glas/Model/Items.lean`.) -/
+theorem C03_conditional (P : Prog) (f n : Nat) (pre vic vic' post : List Kind) (k1 k2 k3 : Nat)
+    (ipre iv' ipost0 : List ItemOut)
+    (hhead : vic.take (progMaxNth P + 1) = vic'.take (progMaxNth P + 1))
+    (hlen : progMaxNth P + 1 ≤ vic.length) (hlen' : progMaxNth P + 1 ≤ vic'.length)
+    (hpre : parseSeg P f n (pre ++ vic ++ post) k1 0 pre.length = some ipre)
+    (hcontain : parseSeg P f n (pre ++ vic' ++ post) k2 pre.length (pre.length + vic'.length) = some iv')
+    (hpost : parseSeg P f n post k3 0 post.length = some ipost0) :
+    parseItems P f n (pre ++ vic' ++ post) (k1 + k2 + k3) =
+        some (ipre ++ iv' ++ ipost0.map (fun o => o.shift (pre.length + vic'.length))) ∧
+    parseSeg P f n (pre ++ vic ++ post) k3 (pre.length + vic.length) (pre ++ vic ++ post).length =
+        some (ipost0.map (fun o => o.shift (pre.length + vic.length))) := by
+  have htake : ∀ v : List Kind, progMaxNth P + 1 ≤ v.length →
+      (pre ++ v ++ post).take (pre.length + progMaxNth P + 1) = pre ++ v.take (progMaxNth P + 1) := by
+    intro v hv
+    have e1 : pre.length + progMaxNth P + 1 = pre.length + (progMaxNth P + 1) := by omega
+    rw [e1, List.append_assoc, List.take_length_add_append, List.take_append_of_le_length hv]
+  have hag : Glas.Lemmas.ItemsLocal.Agree (pre.length + progMaxNth P + 1) (pre ++ vic ++ post) (pre ++ vic' ++ post) := by
+    refine ⟨?_, by simp; omega, by simp; omega⟩
+    rw [htake vic hlen, htake vic' hlen', hhead]
+  have hpre' := Glas.Lemmas.ItemsSeg.parseSeg_prefix P f n _ _ pre.length hag k1 0 ipre hpre
+  have hsh : ∀ (v : List Kind), parseSeg P f n (pre ++ v ++ post) k3 (pre.length + v.length) (pre ++ v ++ post).length =
+      some (ipost0.map (fun o => o.shift (pre.length + v.length))) := by
+    intro v
+    have := Glas.Lemmas.ItemsSeg.parseSeg_shift P f n (pre ++ v) post k3 0 post.length
+    simp only [List.length_append, Nat.zero_add] at this ⊢
+    have e : pre.length + v.length + post.length = post.length + (pre.length + v.length) := by omega
+    rw [e, this, hpost]
+    rfl
+  refine ⟨?_, hsh vic⟩
+  unfold parseItems
+  have h12 := Glas.Lemmas.ItemsSeg.parseSeg_append P f n _ k1 0 pre.length (pre.length + vic'.length) ipre iv' k2
+    (Nat.zero_le _) (Nat.le_add_right _ _) hpre' hcontain
+  have h123 := Glas.Lemmas.ItemsSeg.parseSeg_append P f n _ (k1 + k2) 0 (pre.length + vic'.length)
+    (pre ++ vic' ++ post).length (ipre ++ iv') _ k3 (Nat.zero_le _) (by simp) h12 (hsh vic')
+  exact h123
+
+/-- non-vacuity on the generated parser: `fn a() { 1 }`, `fn b() { 2 }`, `fn c() { 3 }`; the body of `b` damaged into
+`{ 1 ) , }`; the hypotheses hold and the items in front and behind are what they were -/
+example :
+    let fa := [K_FN_KW, K_IDENT, K_L_PAREN, K_R_PAREN, K_L_BRACE, K_INTEGER, K_R_BRACE]
+    let vic' := [K_FN_KW, K_IDENT, K_L_PAREN, K_R_PAREN, K_L_BRACE, K_INTEGER, K_R_PAREN, K_COMMA, K_R_BRACE]
+    ((parseSeg glasProg 1 4000 (fa ++ fa ++ fa) 3 0 7).map (fun l => l.map (fun o => (o.start, o.stop))) = some [(0, 7)]) ∧
+    ((parseSeg glasProg 1 4000 (fa ++ vic' ++ fa) 3 7 16).map (fun l => l.map (fun o => (o.start, o.stop))) = some [(7, 16)]) ∧
+    ((parseItems glasProg 1 4000 (fa ++ vic' ++ fa) 5).map (fun l => l.map (fun o => (o.start, o.stop, o.errs.length))) =
+      some [(0, 7, 0), (7, 16, 2), (16, 23, 0)]) := by decide +kernel
 
 end Glas.Props.C03
